@@ -273,6 +273,31 @@ def work(task):
             depth_below = rnd.choice([0, 0, 1, 2, 3, 4]) if kind != "ternary" else rnd.choice([0, 1, 3])
             stack = filler(rnd, depth_below) + list(ops)
             check(drv, ev, stack, w, rnd, all_hist=thorough or kind != "binary" or idx % 8 == 0)
+            if kind == "binary" and (thorough or idx % 3 == 0) and w in ("add", "sub", "mul", "div", "mod", "?find", "?starts", "?ends", "!find"):
+                # a word gets values of its own: another live copy of an operand (kept by `dup`, by a binding, by the
+                # other branch of a fork) is what it was afterwards
+                a, b = ops
+                la, lb = lit_node(a), lit_node(b)
+                wn = word_nodes(w)
+                for sname, node in (("dup", ("cat", [la, ("word", "dup"), lb] + wn)),
+                                    ("bound", ("cat", [la, ("scope", ("X",), ("cat", [("read", "X"), lb] + wn + [("read", "X")]))])),
+                                    ("fork", ("cat", [la, ("alt", [("cat", [lb] + wn), ("cat", [lb] + wn), ("nop",)])]))):
+                    try:
+                        o = run_case(drv, node, (), limit=500, steps=100000)
+                    except DriverCrash as e:
+                        ev.violations.append({"property": PID, "query": render(node), "reason": "driver crashed: " + e.report[-2500:], "ast": repr(node),
+                                              "signature": "C11:crash:shared:" + render(node)[:80]})
+                        continue
+                    except DriverTimeout:
+                        ev.inconc("watchdog")
+                        continue
+                    if o.status == "inconclusive":
+                        continue
+                    ev.case(key=("shared", sname, w, repr(ops)), nontrivial=True)
+                    ev.label("shared-copy:" + sname)
+                    if o.status == "violation":
+                        ev.violations.append({"property": PID, "query": o.text, "reason": "another copy of an operand is alive (%s): %s" % (sname, o.reason), "ast": repr(node),
+                                              "signature": "C11:shared:%s:%s" % (w, o.text[:100])})
         if kind == "unary" and lo == 0:
             # too-shallow stacks: a word on a stack that lacks its operands fails through the API
             for w in ["drop", "dup", "swap", "over", "rot", "type", "pos"]:
@@ -366,6 +391,7 @@ def main(tier, seed):
                                "exhaustive=true: every (word, operand tuple) over the pool is enumerated; fillers and histories are sampled per tuple"],
                   health={"all histories used": all(ev.labels.get("history:" + h, 0) > 0 for h in ("api", "api-pos", "literals", "junk-drop", "deep-junk", "swap", "rot", "mixed")),
                           "soft errors agreed": ev.labels.get("soft-error-agreed", 0) > 50,
+                          "operands with another live copy": all(ev.labels.get("shared-copy:" + k, 0) > 100 for k in ("dup", "bound", "fork")),
                           "renumbering exercised": ev.labels.get("stream:renumbered", 0) > 200,
                           "exhaustive search cases (strings, sequences, sequences of mixed elements)": all(ev.labels.get("search:" + k, 0) > 500 for k in SEARCH_ALPHABETS)})
 
